@@ -21,7 +21,7 @@ from decimal import Decimal
 from enum import Enum
 from xml.etree.ElementTree import QName
 
-from harness.common import PART, known, result
+from harness.common import PART, concretize, known, result, untraced
 from vlib.jobs import Job
 
 from xsdata.exceptions import ConverterError
@@ -796,6 +796,104 @@ def z_int_datatype(part, timeout):
     return qs.result({"functions": sorted(tr.functions_seen)})
 
 
+# ----------------------------------------------------------------------------- datatype inference of period values
+_PERIODS = ["2021", "0000", "0000Z", "-0001", "2021-05", "0000-05", "--05", "--05-06", "---07", "---31Z", "12345-01"]
+_PERIOD_DT = ["gYear", "gYear", "gYear", "gYear", "gYearMonth", "gYearMonth", "gMonth", "gMonthDay", "gDay", "gDay", "gYearMonth"]
+
+
+def period_datatype(i: int) -> bool:
+    """
+    pre: 0 <= i < len(_PERIODS)
+    post: _
+    """
+    from xsdata.models.enums import DataType
+
+    ci = concretize(i, len(_PERIODS))
+    with untraced():
+        p = XmlPeriod(_PERIODS[ci])
+        dt = DataType.from_value(p)
+        # the inferred datatype's own lexical space must contain the literal: it parses back through the type's converter
+        back = converter.deserialize(converter.serialize(p), [dt.type])
+        return result(dt.code == _PERIOD_DT[ci] and back == p)
+
+
+# ----------------------------------------------------------------------------- converter registry history (candidate lists use MRO lookup)
+class _BaseT(str):
+    pass
+
+
+class _MidT(_BaseT):
+    pass
+
+
+class _LeafT(_MidT):
+    pass
+
+
+def _registry_history(ops):
+    """Apply ops to a fresh ConverterFactory; return the observable results of the 'convert' ops."""
+    from xsdata.formats.converter import ConverterFactory, ProxyConverter
+
+    f = ConverterFactory()
+    f.register_converter(str, converter.type_converter(str))
+    f.register_converter(_BaseT, ProxyConverter(lambda v: _BaseT("B:" + v)))
+    out = []
+    for op in ops:
+        if op == 0:
+            out.append(repr(f.deserialize("x", [_LeafT])))
+        elif op == 1:
+            f.register_converter(_MidT, ProxyConverter(lambda v: _MidT("M:" + v)))
+        elif op == 2:
+            try:
+                f.unregister_converter(_MidT)
+            except KeyError:
+                out.append("KeyError")
+        elif op == 3:
+            out.append(repr(f.serialize(_LeafT("q"))))
+        elif op == 4:
+            f.register_converter(_LeafT, ProxyConverter(lambda v: _LeafT("L:" + v)))
+    return out
+
+
+def _registry_reference(ops):
+    """Independent reading: a lookup uses the nearest registered class in the MRO at the time of the call."""
+    reg = {"_BaseT"}
+    out = []
+    for op in ops:
+        if op == 0:
+            if "_LeafT" in reg:
+                out.append(repr(_LeafT("L:x")))
+            elif "_MidT" in reg:
+                out.append(repr(_MidT("M:x")))
+            else:
+                out.append(repr(_BaseT("B:x")))
+        elif op == 1:
+            reg.add("_MidT")
+        elif op == 2:
+            if "_MidT" in reg:
+                reg.discard("_MidT")
+            else:
+                out.append("KeyError")
+        elif op == 3:
+            out.append(repr("q"))
+        elif op == 4:
+            reg.add("_LeafT")
+    return out
+
+
+def registry_history(o0: int, o1: int, o2: int, o3: int) -> bool:
+    """
+    pre: 0 <= o0 <= 4
+    pre: 0 <= o1 <= 4
+    pre: 0 <= o2 <= 4
+    pre: 0 <= o3 <= 4
+    post: _
+    """
+    ops = [concretize(o, 5) for o in (o0, o1, o2, o3)]
+    with untraced():
+        return result(_registry_history(ops) == _registry_reference(ops))
+
+
 PRE = {}
 EXPLAIN = {}
 
@@ -831,6 +929,8 @@ def plan(tier):
     jobs.append(Job("edge_float", {}, T, 30, note="selector driven, C functions on a concrete pool"))
     jobs.append(Job("edge_decimal", {}, T, 30, note="selector driven, C functions on a concrete pool"))
     jobs.append(Job("edge_lex", {}, T, 30, note="selector driven, C functions on a concrete pool"))
+    jobs.append(Job("period_datatype", {}, T, 30, note="selector driven"))
+    jobs.append(Job("registry_history", {}, T, 30, note="selector driven: every sequence of 4 registry operations"))
     jobs.append(Job("z_int_datatype", {}, 60, kind="z3"))
     return jobs
 
